@@ -17,6 +17,7 @@ TEMPLATES = [
     ("stochastic", {**BASE, "p_e": 1.0, "p_r": 0.0, "T": [2, 3]}),
     ("two stochastic states", {**BASE, "p_h_stoch": 1.0, "p_e": 1.0, "p_r": 0.3, "T": [2, 3], "max_cells": 900}),
     ("dense choice + constraint", {**BASE, "p_b": 1.0, "p_dense_constraint": 1.0, "p_r": 0.0}),
+    ("a single period", {**BASE, "T": [1], "p_r": 0.5, "p_b": 0.5}),      # rules that could be thought moot without a next period
 ]
 
 
